@@ -9,6 +9,11 @@
 //!   `Searcher::doc` and `SegmentReader::get_store_reader(cache)`; deletes; merges that stack or
 //!   re-compress; sorted indexes (temp store re-read, interleaved merge).
 //!
+//! * `vint`: stored text / bytes / JSON-string values whose byte length straddles each VInt width
+//!   boundary (127/128, 16383/16384, 2^21-1 / 2^21 / 2^21+5), before and after a merge.
+//! * `concurrent`: 4-8 threads hop between blocks through ONE shared `Searcher` and ONE shared
+//!   `StoreReader` (cache 0/1/2/100) of a segment with hundreds of blocks.
+//!
 //! Oracle: the model document (list of (field, typed value) in insertion order). Per field the
 //! returned values must equal the model values in order; non-stored fields must be absent;
 //! `iter(alive)` must yield exactly the live documents in doc-id order.
@@ -45,12 +50,31 @@ fn main() {
             slow.lock().unwrap().push((t.elapsed().as_secs_f64(), format!("index#{c}")));
         }
     });
+    let rep3 = run_cases(&ctx, "vint", ctx.scale(3, 12) as u64, |c, rng, rep| {
+        let t = std::time::Instant::now();
+        indexcase::vint_case(c, rng, rep, deep);
+        if dbg {
+            slow.lock().unwrap().push((t.elapsed().as_secs_f64(), format!("vint#{c}")));
+        }
+    });
+    // the concurrent stream runs its own 4-8 threads per case: few cases side by side
+    let mut cctx = ctx.clone();
+    cctx.threads = ctx.threads.min(3);
+    let rep4 = run_cases(&cctx, "concurrent", ctx.scale(6, 60) as u64, |c, rng, rep| {
+        let t = std::time::Instant::now();
+        indexcase::concurrent_case(c, rng, rep, deep);
+        if dbg {
+            slow.lock().unwrap().push((t.elapsed().as_secs_f64(), format!("concurrent#{c}")));
+        }
+    });
     if dbg {
         let mut v = slow.into_inner().unwrap();
         v.sort_by(|a, b| b.0.partial_cmp(&a.0).unwrap());
         eprintln!("store stream took {t_store:.1}s; slowest cases: {:?}", v.iter().take(12).collect::<Vec<_>>());
     }
     rep.merge(rep2);
+    rep.merge(rep3);
+    rep.merge(rep4);
     if std::env::var("C09_DEBUG").is_ok() {
         for (k, v) in &rep.sets {
             eprintln!("set {k}: {:?}", v.iter().take(40).collect::<Vec<_>>());
